@@ -524,8 +524,9 @@ template<class T>
 static void run_bigsame(Json& js, vh::Rng& rng, long budget) {
     AssignCtx<T> ctx;
     for (long k = 0; k < budget; ++k) {
-        const int n = (int)rng.range(150, 600);
-        const int am = (int)rng.range(1, 3), cnt = (int)rng.range(65, (n - 8) / am - 1);
+        const int am = (int)rng.range(1, 3);
+        const int n = (int)rng.range(std::max(150, 8 + 68 * am), 600);   // room for at least 65 elements at this stride
+        const int cnt = (int)rng.range(65, (n - 8) / am - 1);
         const int shift = (int)rng.range(-6, 6);
         const bool neg = rng.coin();
         const int m = neg ? -am : am;
